@@ -87,6 +87,7 @@ type Ctx struct {
 	maxSamp  int
 	nviol    map[string]int
 	curIdx   int64
+	begun    int64
 	curKey   string
 	inconcl  int64
 	sampleAt map[string]int
@@ -144,7 +145,22 @@ func (c *Ctx) emit(v map[string]any) {
 func (c *Ctx) Begin(idx int64, key string) {
 	c.mu.Lock()
 	c.curIdx, c.curKey = idx, key
+	c.begun++
+	progress := c.begun%64 == 0
+	var ev int64
+	var counts map[string]int64
+	if progress {
+		// what this process has counted so far, so that the parent can credit it if the process dies later
+		ev = c.evals
+		counts = make(map[string]int64, len(c.counts))
+		for k, v := range c.counts {
+			counts[k] = v
+		}
+	}
 	c.mu.Unlock()
+	if progress {
+		c.emit(map[string]any{"t": "progress", "evals": ev, "counts": counts})
+	}
 	c.journalWrite(fmt.Sprintf("B %d %s", idx, key))
 }
 
